@@ -26,9 +26,10 @@ from socket import error as socket_error
 from errno import ECONNRESET, EPIPE
 from io import BytesIO
 
-from gevent.ssl import SSLSocket, SSLError, create_default_context
+from gevent.ssl import SSLSocket, SSLError
 
 from slimta import logging
+from slimta.util import create_default_context
 from . import ConnectionLost, BadReply
 
 try:
